@@ -462,6 +462,18 @@ def _candidates(source: str, target_line):
                 ded = _dedent_block(lines[b_lo - 1: b_hi], blk[0].col_offset - col)
                 if ded is not None:
                     hoist.append((-size, lo, lines[: lo - 1] + ded + lines[hi:]))
+    # bulk steps first: drop every top-level def/class (then: every top-level statement) that does not contain the line
+    if target_line is not None:
+        tops = [(min([n.lineno] + [d.lineno for d in getattr(n, "decorator_list", [])]), n.end_lineno, n) for n in tree.body]
+        for only_defs in (False, True):
+            drop = [(lo, hi) for lo, hi, n in tops if not (lo <= target_line <= hi)
+                    and (not only_defs or isinstance(n, (ast.FunctionDef, ast.AsyncFunctionDef, ast.ClassDef)))
+                    and not (isinstance(n, ast.ImportFrom) and n.module == "__future__")]
+            if len(drop) >= 2:
+                gone = set()
+                for lo, hi in drop:
+                    gone.update(range(lo, hi + 1))
+                yield "\n".join(l for k, l in enumerate(lines, 1) if k not in gone)
     dele.sort(key=lambda t: t[:2])
     hoist.sort(key=lambda t: t[:2])
     repl.sort(key=lambda t: t[:2])
@@ -582,6 +594,7 @@ def check_program(ctx, source: str, feats, origin: str, minimise: bool = True, s
     if len(ctx.samples) < 2 and origin == "fuzz":
         ctx.sample({"program": source[len(fuzzgen.HEADER) - 200:][:1800]})
     for key, (config, what, ln) in sorted(all_found.items()):
+        ctx.histo("violation_key_by_origin", f"{origin.split(':')[0]} -> {key}")
         report(ctx, source, config, key, what, ln, minimise, shrunk_keys)
 
 
@@ -684,6 +697,42 @@ def _ends_with_traceback(err: str) -> bool:
     return len(after) <= 3 and not any("Internal error:" in l or l.lstrip().startswith("In ") for l in after)
 
 
+# Constant folding without bound: these never-called functions are checked in a subprocess under RLIMIT_CPU (CPU seconds
+# of the process, not wall-clock) and RLIMIT_AS; a normal check of such a 3-line file needs < 2 CPU-seconds.
+TERMINATION_PROBES = [
+    ("literal-power", "def f():\n    x = 1000 ** 1000\n    y = x ** x\n    return y\n"),
+]
+PROBE_CPU_S = 20
+PROBE_AS_BYTES = 3 << 29  # 1.5 GiB
+
+
+def termination_probe(name: str, source: str, d: str):
+    """-> (key, what) or None"""
+    import resource
+    import subprocess
+
+    path = os.path.join(d, f"probe_{name.replace('-', '_')}.py")
+    with open(path, "w") as f:
+        f.write(source)
+
+    def limits():
+        resource.setrlimit(resource.RLIMIT_CPU, (PROBE_CPU_S, PROBE_CPU_S + 5))
+        resource.setrlimit(resource.RLIMIT_AS, (PROBE_AS_BYTES, PROBE_AS_BYTES))
+
+    env = dict(os.environ)
+    env["PYTHONPATH"] = harness.REPO
+    env.pop("PYANALYZE_VERIF", None)
+    p = subprocess.run([harness.PYTHON, "-m", "pyanalyze", path], cwd=d, env=env, capture_output=True, text=True, preexec_fn=limits)
+    err = _ANSI_RE.sub("", p.stderr or "")
+    if p.returncode < 0:
+        return (f"termination|cpu-limit-exceeded|{name}",
+                f"python -m pyanalyze on a {source.count(chr(10))}-line file was killed by signal {-p.returncode} after using {PROBE_CPU_S} CPU-seconds "
+                f"(RLIMIT_CPU): the operator is evaluated on literal operands without bound\n--- program ---\n{source}")
+    if "MemoryError" in err:
+        return (f"termination|memory-limit-exceeded|{name}", f"python -m pyanalyze hit RLIMIT_AS (1.5 GiB; a normal check needs < 0.4 GiB): {err[-300:]!r}\n--- program ---\n{source}")
+    return None
+
+
 def cli_phase(ctx) -> None:
     scratch = os.environ.get("VERIF_SCRATCH")
     if not scratch:
@@ -691,6 +740,13 @@ def cli_phase(ctx) -> None:
         return
     d = os.path.join(scratch, f"cli{ctx.shard}")
     os.makedirs(d, exist_ok=True)
+    for i, (name, src) in enumerate(TERMINATION_PROBES):
+        if ctx.mine(i):
+            ctx.count("termination_probes")
+            ctx.count("evaluations")
+            r = termination_probe(name, src, d)
+            if r is not None:
+                ctx.violation(r[0], r[1], {"kind": "probe", "name": name, "source": src, "expect": r[0]})
     n = ctx.pick(20, 40)
     batch = ctx.pick(5, 5)
     files = []
@@ -981,6 +1037,13 @@ def replay(witness):
             with open(path, "w", encoding="utf-8", newline="") as f:
                 f.write(witness["source"])
             r = cli_check(path, d)
+            if r:
+                ctx.violation(r[0], r[1], witness)
+    elif kind == "probe":
+        import tempfile
+
+        with tempfile.TemporaryDirectory(dir=os.environ.get("VERIF_SCRATCH")) as d:
+            r = termination_probe(witness["name"], witness["source"], d)
             if r:
                 ctx.violation(r[0], r[1], witness)
     elif kind == "value":
